@@ -7,10 +7,12 @@
    transaction is lost, nothing else.  Assumed, not proved: sqlite commits atomically and a killed
    process loses exactly its open transaction; archives given to restore satisfy [archive_ok]
    (C06_archive_ok: those made by `cond archive` do); gc does not delete a directory whose task
-   process is still running. *)
+   process is still running; one cond process per project at a time.  `cond clean` is NOT atomic in
+   the model: the index file goes first (LCleanIndex), then the directories one by one in any order
+   (LCleanDir k), each step possibly followed by a kill. *)
 From Coq Require Import List NArith Bool.
 From Conductor Require Import Lib.Str Model.Store Proofs.StoreSpec Proofs.StoreProofs Proofs.StoreInv
-  Proofs.StoreSteps Proofs.StoreThms.
+  Proofs.StoreSteps Proofs.StoreThms Refuted.CleanOld.
 Import ListNotations.
 Open Scope N_scope.
 
@@ -51,6 +53,15 @@ Print Assumptions C06_committed_from_txn.
 Theorem C06_archive_ok : forall clock sel s, reachable clock s -> archive_ok (archive_of sel s).
 Proof. exact archive_of_ok. Qed.
 Print Assumptions C06_archive_ok.
+
+(* The order matters (defect D22, repaired in /repo by e97eb39): with the single rmtree of the old
+   `cond clean`, which may meet a version directory before the index file, a kill in between leaves a
+   recorded row without its directory -- the invariant fails. *)
+Theorem C06_clean_refuted_old :
+  let s := stop (do_clean_dir_old (row_key the_row) (apply clock0 (LBegin CClean) recorded)) in
+  In the_row (s_rows s) /\ lookup (row_key the_row) (s_dirs s) = None /\ ~ Inv s.
+Proof. exact Refuted.CleanOld.C06_clean_refuted_old. Qed.
+Print Assumptions C06_clean_refuted_old.
 
 (* non-vacuity: a history with a failed, a killed and a successful execution, cut by a crash
    between insert and commit, then completed by a second invocation *)
